@@ -533,6 +533,11 @@ static int group_enabled(const char *g)
 
 static int wd_confirm(char *buf, size_t len)
 {
+#if VP_TSAN
+	/* marker mode: no step-count verdict to confirm; do not touch the subject's private state from here */
+	snprintf(buf, len, "progress harness stalled (marker mode: a wait without marker cannot be told from a slow run)");
+	return 0;
+#endif
 	/* a verdict already taken from the step count makes the stuck state a confirmed violation */
 	if (st.active && st.verdict && st.os) {
 		snprintf(buf, len, "progress:%s:blocked-at:%s", st.os->name, cur.want_frozen ? cur.P : "none");
